@@ -187,7 +187,12 @@ def run(check, repo: Repo) -> None:
     arms, els = flatten_if_chain(chain)
     got = {}
     for t, body in arms:
-        key = "None" if "None" in unparse(t) else (ast.literal_eval(t.comparators[0]) if isinstance(t, ast.Compare) else unparse(t))
+        if "None" in unparse(t):
+            key = "None"
+        elif isinstance(t, ast.Compare) and isinstance(t.comparators[0], ast.Constant):
+            key = t.comparators[0].value
+        else:
+            raise AnalysisError(f"cartesian basis: kind test `{unparse(t)}` not understood (expected `kind is None` / `kind == '<letter>'`)")
         app = [c for s in body for c in ast.walk(s) if isinstance(c, ast.Call) and (call_name(c) or "").endswith(".append")]
         got[key] = unparse(app[0].args[0]) if app else "?"
     want = {"None": "pref * radial", "a": "pref * radial * torch.cos(m * phi)", "b": "pref * radial * torch.sin(m * phi)"}
@@ -268,6 +273,15 @@ def run(check, repo: Repo) -> None:
         n_sites += 1
         arms, _ = flatten_if_chain(chain)
         idx_def = next(i for i, (t, _) in enumerate(arms) if "'defocus'" in unparse(t))
+        # a coefficient of exactly 0 is a coefficient (an in-focus override must replace a stored defocus): the "not given" arm tests `is None`
+        for t_, body_ in arms:
+            if len(body_) == 1 and isinstance(body_[0], (ast.Continue, ast.Pass)):
+                isnone = isinstance(t_, ast.Compare) and len(t_.ops) == 1 and isinstance(t_.ops[0], ast.Is) and is_const(t_.comparators[0], None)
+                truthy = (isinstance(t_, ast.UnaryOp) and isinstance(t_.op, ast.Not) and isinstance(t_.operand, ast.Name)) or \
+                    (isinstance(t_, ast.Compare) and len(t_.ops) == 1 and isinstance(t_.ops[0], ast.Eq) and is_const(t_.comparators[0], 0))
+                check.decide(isnone, "C12-R5", f"{label}: a coefficient is skipped only when it is None (0 is a value)", unparse(t_), m_.line(t_), definite=truthy,
+                             fail_detail=f"`{unparse(t_)}` also skips a coefficient of exactly 0: {{'defocus': 0.0}} standardises to {{}} and an in-focus override leaves the stored C10 in effect "
+                                         f"(C10 ≠ −defocus)")
         idx_alias = [i for i, (t, _) in enumerate(arms) if "POLAR_ALIASES" in unparse(t) or "canonical in POLAR_SYMBOLS" in unparse(t)]
         first = not idx_alias or idx_def < min(idx_alias)
         check.decide(first, "C12-R5", f"{label}: the 'defocus' arm is reached before the generic alias arm", "", m_.line(arms[idx_def][0]),
@@ -445,3 +459,5 @@ MANIFEST = {
     "technique": "term-table extraction + rational/polynomial normal forms + symbolic differentiation of the table (AST)",
 }
 MANIFEST["text"] += ' The polar-decomposition helper is decided algebraically with the argument read as U·S·Vh, adjoints of products and unitary reductions (right polar factor, Hermitian second factor).'
+MANIFEST["text"] += ' Guard rule: only a missing *magnitude* drops a term (an angle alone multiplies a zero magnitude), so guards may omit angles; a missing magnitude is a definite verdict of the series interpreter.'
+MANIFEST["text"] += " R5 also: the 'not given' arm of each alias loop tests `is None` (a coefficient of exactly 0 is a value)."
